@@ -31,7 +31,7 @@ fn spec(tier: Tier) -> CheckSpec {
 			(ops) every unary operator x 23 operand values, every binary operator x 23^2 operand pairs, every operator pair `a op1 b op2 c` and `un a op b` over a 4-value operand set; \
 			(gen) every program of the whole-grammar generator with <= k non-literal constructs (k=3 quick, 4 thorough); \
 			(call) every signature of <= 3 parameters (no default / constant default / default referring to another parameter) x every call shape (positional prefix, named rest in both orders, missing, unknown, duplicate, too many) x tailstrict; \
-			(arr) every base array/string/other x every index and slice from the boundary sets; (err) error/assert/if/short-circuit forms over every value type; (static) statically invalid programs with the offending construct in dead code. \
+			(arr) every base array/string/other x every index and slice from the boundary sets; (err) error/assert/if/short-circuit forms over every value type; (obj) every 3-layer inheritance chain on one field and every 2-layer chain on two fields over all 12 member kinds, as whole programs; (static) statically invalid programs with the offending construct in dead code. \
 			Every program is run in 6 configurations: default parser, legacy parser, imported file, external-code variable, body of a top-level-argument function, top-level code argument. \
 			non-trivial = distinct program text whose reference verdict is a value or an error (not Unsure)"
 			.into(),
@@ -497,6 +497,34 @@ fn part_misc(shard: &Shard, journal: &Journal, rep: &mut Report) {
 		run(rep, "err", Ex::Apply(Box::new(func(&["x"], n(1.0))), vec![v.clone()], vec![], true), 1);
 		run(rep, "err", idx(Ex::Arr(vec![v.clone(), n(7.0)]), n(1.0)), 1);
 		run(rep, "err", dot(obj(vec![field("a", Vis::Normal, false, v.clone()), field("b", Vis::Normal, false, n(7.0))]), "b"), 1);
+	}
+	// (obj) inheritance chains of 3 layers on one field name and of 2 layers on two names (delegated to the C02 chain
+	// builder), judged as whole programs: manifestation and a read of `a`
+	{
+		use crate::c02::{build, Chain, LayerD, KINDS_ALL};
+		let k = KINDS_ALL.len();
+		let mut chains: Vec<Chain> = Vec::new();
+		crate::enumr::for_each_product(&[k, k, k, 2], |_, c| {
+			chains.push(Chain {
+				nnames: 2,
+				dup_last: 0,
+				mask_after: None,
+				layers: (0..3).map(|li| LayerD { kinds: vec![KINDS_ALL[c[li]], 0], assert_kind: 0, ext: li > 0 && c[3] == 1, mask_before: None }).collect(),
+			});
+		});
+		crate::enumr::for_each_product(&[k, k, k, k], |_, c| {
+			chains.push(Chain {
+				nnames: 2,
+				dup_last: 0,
+				mask_after: None,
+				layers: (0..2).map(|li| LayerD { kinds: vec![KINDS_ALL[c[li * 2]], KINDS_ALL[c[li * 2 + 1]]], assert_kind: 0, ext: false, mask_before: None }).collect(),
+			});
+		});
+		for ch in chains {
+			let e = build(&ch);
+			run(rep, "obj", e.clone(), 3);
+			run(rep, "obj", dot(e, "a"), 3);
+		}
 	}
 	// (static) statically invalid programs: the specification rejects them even when the offending construct is dead
 	let dead = |bad: Ex| local1("unused", bad, n(1.0));
